@@ -62,7 +62,9 @@ def check_region(ctx, case, L, region, pts, use_flags, light=False):
             sure2, cands2 = alt.classify(float(pts[i][0]), float(pts[i][1]), use_flags)
             ok = (got is None and not sure2) or (got is not None and got in cands2)
             if ok:
-                return name + ":inferred_spacing_roundoff"
+                # decimal spacings are recovered exactly by the library (F25); a spacing that is not a short decimal cannot be
+                # recovered from two doubles beyond their round-off: separate bucket (recorded finding)
+                return name + (":inferred_spacing_roundoff" if lattice.short_decimal(case) else ":inferred_nondecimal_spacing_roundoff")
         return name
 
     for i, (sure, cands) in enumerate(cls):
